@@ -37,6 +37,7 @@ THEOREMS = [
     "CrCube.C06.rowsDimension_type",
     "CrCube.C06.reuse_numeric_set_idempotent",
     "CrCube.C06.augment_idempotent",
+    "CrCube.C06.augment_summary_forms_agree",
     "CrCube.C06.augment_pads_with_zeros",
     "CrCube.C06.augment_by_id_counterexample",
     "CrCube.C06.ca_as_0th_partitions",
@@ -51,8 +52,8 @@ RULE = ("cubeset: families tabbook / ca0th / numeric (0-D first response; 1-D ca
         "(different partition counts, empty partitions) / edge (no responses, short transforms, 0-D only last, augment "
         "against an inflated or enveloped summary) x dict / text / envelope; non-trivial = >= 2 cubes or an in-place edit; "
         "distinct = (family, classes of the partition sets, counts of the last partition)")
-ASSUMPTIONS = ["the iteration order of the numeric measures of a cube (a frozenset: hash order of the running process) is an "
-               "input of the model; the harness passes the order observed in this process"]
+ASSUMPTIONS = ["numeric measures are listed in CUBE_MEASURE declaration order (fix F40); before the fix the order was the hash "
+               "order of the running process"]
 
 T_KINDS = ["cat", "cat", "mr", "cat_date", "text"]
 RC_KINDS = ["cat", "cat", "mr", "cat_date"]
@@ -126,23 +127,29 @@ def gen_case(rng):
             resps.append(_resp(vars_, sv, [0, 2], weighted))
         resps = _form(rng, resps)
     elif fam == "numeric":
-        nm = rng.choice([["mean"], ["mean"], ["sum"], ["mean", "stddev"], ["median"]])
+        nm = rng.choice([["mean"], ["sum"], ["mean", "stddev"], ["median"], ["sum", "mean"], ["stddev", "sum"], ["sum", "median"],
+                         ["valid_count_unweighted", "mean"], ["stddev", "median", "mean"], ["sum", "stddev", "median"]])
         cols = []
         ncols = rng.randint(1, 3)
         vars_all = []
         refs = rng.choice([None, {"alias": "numvar", "name": "num var-name"}, {"alias": "nv"}, {"name": "only name"}])
         n0 = rng.randint(0, 9)
 
-        def meta():
+        per_measure = rng.random() < 0.6      # each measure names the variable differently: the FIRST declared one counts
+
+        def meta(m="mean"):
             md = {"derived": True, "type": {"class": "numeric", "integer": False}}
             if refs is not None:
                 md["references"] = copy.deepcopy(refs)
+                if per_measure:
+                    for k in md["references"]:
+                        md["references"][k] = "%s of %s" % (md["references"][k], m)
             return md
 
         r0 = {"query": {}, "result": {"dimensions": [], "missing": 0, "element": "crunch:cube", "counts": [n0], "n": n0,
                                       "measures": {"count": {"data": [n0], "n_missing": 0, "metadata": {}}}}}
         for m in nm:
-            r0["result"]["measures"][m] = {"data": [gen.num(Fraction(rng.randint(0, 99), 2))], "n_missing": 0, "metadata": meta()}
+            r0["result"]["measures"][m] = {"data": [gen.num(Fraction(rng.randint(0, 99), 2))], "n_missing": 0, "metadata": meta(m)}
         if rng.random() < 0.2:
             r0["result"]["filter_stats"] = {"filtered_complete": {"weighted": {"selected": 3, "other": rng.choice([1, 0, 5]), "missing": 0}}}
         resps = [r0]
@@ -170,7 +177,7 @@ def gen_case(rng):
             extra = {m: _holes(rng, _size(vs)) for m in nm}
             r = gen.cube_response(vs, sv, weighted, extra_measures=extra)
             for m in nm:
-                r["result"]["measures"][m]["metadata"] = meta()
+                r["result"]["measures"][m]["metadata"] = meta(m)
             resps.append(r)
         resps = _form(rng, resps)
     elif fam == "augment":
@@ -221,7 +228,7 @@ def gen_case(rng):
             if rng.random() < 0.06:
                 del r["result"]["measures"]["count"]
             resps.append(r)
-        if rng.random() < 0.15:
+        if rng.random() < 0.45:
             resps = _form(rng, resps)
     elif fam == "single":
         kinds = rng.choice([["ca"], ["ca", rng.choice(RC_KINDS)], [rng.choice(T_KINDS), rng.choice(RC_KINDS)], [rng.choice(RC_KINDS)],
@@ -304,37 +311,12 @@ def generate(ctx):
 # lean ops
 
 
-def _orders(responses):
-    """a global priority order of the numeric measures consistent with the iteration order this process shows for every
-    response (None if the observed orders are not embeddable in one order)"""
-    from cr.cube.cube import Cube
-    obs = []
-    for r in responses:
-        try:
-            obs.append([m.value for m in Cube(copy.deepcopy(r))._available_numeric_measures])
-        except Exception:
-            pass
-    before = {(a, b) for o in obs for i, a in enumerate(o) for b in o[i + 1:]}
-    names = list(NUMERIC)
-    out = []
-    while names:
-        pick = next((x for x in names if not any((y, x) in before for y in names if y != x)), None)
-        if pick is None:
-            return None
-        out.append(pick)
-        names.remove(pick)
-    return out
-
-
 def _transforms_json(ts):
     return [({} if t is None else t) for t in ts]
 
 
 def lean_ops(case):
-    order = _orders(case["responses"])
-    if order is None:
-        return []
-    base = {"responses": case["responses"], "transforms": case["transforms"], "ord": order}
+    base = {"responses": case["responses"], "transforms": case["transforms"]}
     return [dict(base, op="glue_cubeset"), dict(base, op="glue_part_counts")]
 
 
@@ -394,9 +376,6 @@ def evaluate(case, louts, ctx):
     from cr.cube.cube import Cube, CubeSet
     fam = case["family"]
     ctx.count("cubeset:" + fam)
-    if not louts:
-        ctx.count("cubeset:skipped_inconsistent_hash_order")
-        return [], None
     lset, lcounts = louts
     findings = []
     rs = copy.deepcopy(case["responses"])
@@ -473,6 +452,8 @@ def evaluate(case, louts, ctx):
                     if lp is None:
                         ctx.count("cubeset:part_not_decodable")
                         continue
+                    if any(m.startswith("valid_count") for m in _plain(case["responses"][lp["cube"]])["result"]["measures"]):
+                        continue        # counts then come from the valid-count measure (C01 numeric extension)
                     for w, name in ((True, "weighted"), (False, "unweighted")):
                         if lp[name] is None or (w and lp["cls"] == "_Nub"):
                             continue
@@ -485,6 +466,7 @@ def evaluate(case, louts, ctx):
         elif isinstance(sets, dict) != isinstance(lsets, dict):
             findings.append({"kind": "model", "locus": "seam.cubeset.part_counts.sets", "detail": "impl=%s model=%s" % (_short(sets), _short(lsets))})
     # -- property-level checks (no model involved) ---------------------------------------
+    _spec_forms(case, findings)
     if not isinstance(cubes, dict):
         parts = _impl_raw(lambda: [c.partitions for c in cubes])
         sets = _impl_raw(lambda: cs.partition_sets)
@@ -509,6 +491,8 @@ def evaluate(case, louts, ctx):
             mine = _impl(lambda: [_part_view(st[0]) for st in cs.partition_sets])
             _cmp(findings, "spec", "cubeset.single.partitions", mine, ref, "single-response set vs the cube itself")
         if fam == "numeric" and lib["numeric"] is True:
+            _spec_alias(case, cubes, findings)
+        if fam == "numeric" and lib["numeric"] is True:
             # (transform-free on both sides: a rows transform addresses different dimensions before / after inflation)
             _spec_inflated(case, CubeSet(copy.deepcopy(case["responses"]), [None] * len(case["responses"]), case["population"], 0), findings)
         classes = json.dumps(lib["partition_sets"])[:200]
@@ -527,6 +511,49 @@ def _impl_raw(fn):
             return fn()
     except Exception as e:  # noqa
         return {"raises": type(e).__name__}
+
+
+DECLARED = ["mean", "median", "stddev", "sum", "valid_count_unweighted", "valid_count_weighted"]
+
+
+def _plain(r):
+    r = json.loads(r) if isinstance(r, str) else r
+    return r.get("value", r) if isinstance(r, dict) else r
+
+
+def _spec_forms(case, findings):
+    """a set given as JSON text / {"value": ...} envelopes is the set of the plain dicts (F41 for augmented sets)"""
+    from cr.cube.cube import CubeSet
+    rs = case["responses"]
+    if all(isinstance(r, dict) and "value" not in r for r in rs):
+        return
+
+    def view(responses):
+        cs = CubeSet(copy.deepcopy(responses), [None] * len(responses), case["population"], 0)
+        return [[[type(p).__name__, _counts(p, False)] for p in st] for st in cs.partition_sets]
+    a = _impl(lambda: view(rs))
+    b = _impl(lambda: view([_plain(r) for r in rs]))
+    ok, where = common.deep_close(a, b)
+    if not ok:
+        findings.append({"kind": "spec", "locus": "cubeset.response_forms.partition_sets",
+                         "detail": "text / envelope responses vs the same plain dicts%s: forms=%s plain=%s" % (where, _short(a), _short(b))})
+
+
+def _spec_alias(case, cubes, findings):
+    """the inserted rows dimension is named after the FIRST DECLARED numeric measure of the cube (F40)"""
+    for j, c in enumerate(cubes):
+        r = _plain(case["responses"][j])
+        ms = r["result"]["measures"]
+        present = [m for m in DECLARED if m in ms]
+        if not present or (ms[present[0]].get("metadata", {}).get("type", {}).get("subvariables")):
+            continue
+        refs = ms[present[0]].get("metadata", {}).get("references", {})
+        dflt = "-".join(present)
+        exp = [refs.get("alias", dflt), refs.get("name", dflt).title()]
+        got = _impl(lambda: [c.dimensions[0].alias, c.dimensions[0].name])
+        if got != exp:
+            findings.append({"kind": "spec", "locus": "cubeset.inflate.alias",
+                             "detail": "cube %d: inserted dimension (alias, name) %r, first declared numeric measure %r gives %r" % (j, got, present[0], exp)})
 
 
 def _spec_inflated(case, cs, findings):
